@@ -144,7 +144,10 @@ impl World {
             self.announce_until(&a, 5);
         }
         let st: aquatic_udp::common::CachePaddedArc<aquatic_udp::common::IpVersionStatistics<aquatic_udp::common::SwarmWorkerStatistics>> = Default::default();
+        // rename / unlink of scratch files are file steps while the tracker's code runs (interposed C symbols, rt::fs)
+        fs::track_path_ops(true);
         let r = catch(|| self.maps.clean_and_update_statistics(&self.config, &st, &self.tx, &self.access, SecondsSinceServerStart::new_raw(10), true));
+        fs::track_path_ops(false);
         while let Ok(m) = self.rx.try_recv() {
             match m {
                 aquatic_udp::common::StatisticsMessage::PeerAdded(p) => *self.tally.entry(p.0[0]).or_default() += 1,
